@@ -87,8 +87,10 @@ fn fake_bytes(rng: &mut Rng, kind: &str, why: &str, pad: usize, big: &[PoolStrea
         ("gzip", _) => vec![0x1f, 0x8b, 8, 0, 0, 0, 0, 0, 0, 3, 0x07],
         ("zip", "signature") => vec![0x50, 0x4b, 0x01, 0x02, 0, 0, 0, 0],
         ("zip", "method") => {
+            // a stored member (method 0) that says it is 70000 bytes long: what follows in the file
+            // is, as far as the archive is concerned, inside it - and still has to be looked at
             let mut v = vec![0x50, 0x4b, 0x03, 0x04, 20, 0, 0, 0, 0, 0];
-            v.extend_from_slice(&[0; 20]);
+            v.extend_from_slice(&[0; 20]); // (sizes are filled in by build_file once the file is complete)
             v
         }
         ("zip", "extra-past-eof") => {
@@ -162,6 +164,10 @@ pub fn build_file(segs: &Value, big: &[PoolStream], small: &[PoolStream], rng: &
     // end offset of an IDAT run that nothing separates from what follows: a valid IDAT
     // chunk right behind it extends the run, which leaves C06's hypothesis
     let mut idat_run_end: Option<usize> = None;
+    // stored ZIP members (fake zip / method): offsets of their headers; once the file is complete their
+    // size fields are set so that the member reaches to the end of the file - everything behind the
+    // header is then "inside" it, and still has to be looked at
+    let mut stored_members: Vec<usize> = Vec::new();
     for s in segs.as_array().unwrap() {
         let starts_with_valid_idat = s["k"].as_str() == Some("idat")
             && (s["c"].as_str() == Some("wrap") || (s["c"].as_str() == Some("fake") && s["why"].as_str() == Some("short")));
@@ -176,6 +182,9 @@ pub fn build_file(segs: &Value, big: &[PoolStream], small: &[PoolStream], rng: &
                 if why == "zero-chunk" || why == "gap" {
                     // parts of the damaged run may be found as plain zlib streams: no exact prediction
                     exact = false;
+                }
+                if s["k"].as_str() == Some("zip") && why == "method" {
+                    stored_members.push(bytes.len());
                 }
                 bytes.extend_from_slice(&f);
             }
@@ -292,6 +301,15 @@ pub fn build_file(segs: &Value, big: &[PoolStream], small: &[PoolStream], rng: &
     }
     if lit_start < bytes.len() {
         expect.push(ExpChunk { kind: 0, span: bytes.len() - lit_start, plain: None });
+    }
+    for &at in stored_members.iter() {
+        if at + 30 <= bytes.len() {
+            let size = (bytes.len() - at - 30) as u32;
+            // (never a byte pair that is a signature of its own)
+            let size = if size.to_le_bytes().windows(2).any(|w| (w[0] == 0x78 && [0x01, 0x5e, 0x9c, 0xda].contains(&w[1])) || (w[0] == 0x1f && w[1] == 0x8b)) { size.saturating_sub(1) } else { size };
+            bytes[at + 18..at + 22].copy_from_slice(&size.to_le_bytes());
+            bytes[at + 22..at + 26].copy_from_slice(&size.to_le_bytes());
+        }
     }
     Built {
         bytes,
